@@ -133,8 +133,48 @@ def unionDict (own other : QDict) : QDict :=
 def okMerge (own other result ownAfter : QDict) : Bool :=
   decide (normDict result = unionDict own other) && decide (normDict ownAfter = normDict own)
 
+/-- `export` operation (`export_qualifiers(parent_qualifiers)` of a CDS): the result is the key-wise union of the
+    interval's qualifiers, the parent's and the identifiers the exporter adds; the interval's own dictionary AND the
+    `parent_qualifiers` argument are as before. -/
+def okExport (own other : QDict) (ids : List (Nat × Nat)) (result ownAfter otherAfter : QDict) : Bool :=
+  decide (normDict result = unionDict (unionDict own other) (ids.map fun kv => (kv.1, [kv.2]))) &&
+    decide (normDict ownAfter = normDict own) && decide (normDict otherAfter = normDict other)
+
 /-- `hist` operation (histories on real objects): the digest lists the calls whose answer differed from the
     fresh twin's / whose operand changed; the property is that there are none. -/
 def okHist (digest : List String) : Bool := digest == ["-"]
+
+/-! ### operations with arguments on real objects: recorded answers are DIGESTS of canonical answer records -/
+
+/-- `warm` operation.  `answers` = for every operation applied: (operation, digest of the answers the RESULT gives to the
+    full question list when the operation was applied to a freshly built operand under cold caches, the same digest when
+    operand and/or arguments had first been asked every question).  `snapPristine/Cold/Warm` = digest of the snapshot
+    (dictionary form, hash, str, identifiers, qualifiers of children) of operand + arguments never touched / after the
+    operations on cold operands / after warm-up and operations.
+    The clause: the answers of a result do not depend on what its operands were asked before, and the operands read
+    the same before and after. -/
+def okWarm (answers : List (String × String × String)) (snapPristine snapCold snapWarm : String) : Bool :=
+  answers.all (fun a => a.2.1 == a.2.2) && snapCold == snapPristine && snapWarm == snapPristine
+
+/-- the first operation whose result answers differently (for the failure message) -/
+def firstWarmDiff (answers : List (String × String × String)) : Option String :=
+  (answers.find? (fun a => a.2.1 != a.2.2)).map (·.1)
+
+/-- `args` operation: a call with dict / list / set / object arguments.  The arguments (deep content: nested sets,
+    container types, key order, hash/str of objects) and the receiver read the same before and after; the call gives the
+    same rendered result when repeated with the same argument objects and on a fresh twin with fresh arguments; no mutable
+    container is reachable both from the result and from the arguments / the receiver (`aliases` lists the shared ones). -/
+def okArgs (argsBefore argsAfter selfBefore selfAfter first second twin : String) (aliases : List String) : Bool :=
+  argsBefore == argsAfter && selfBefore == selfAfter && first == second && first == twin && aliases.isEmpty
+
+/-- `lazy` operation: the renderings (rows printed while iterating / after the generator was exhausted / again /
+    on fresh twins) of a generator-returning export all coincide.  `(label, "<rows>:<digest>")`. -/
+def okLazy : List (String × String) → Bool
+  | [] => false
+  | r :: rest => rest.all (fun x => x.2 == r.2)
+
+def firstLazyDiff : List (String × String) → Option String
+  | [] => none
+  | r :: rest => (rest.find? (fun x => x.2 != r.2)).map (·.1)
 
 end BioCantor.Spec.Cache
